@@ -197,6 +197,7 @@ class World:
         ext["__getattr__"] = self.get_property
         ext["__getitem__"] = self.get_item
         ext["__contains__"] = self.contains
+        ext["__eq__"] = self.equal
         ext["__bool__"] = self.truth
         ext["__module_env__"] = self.module_env
         ext["__class_state__"] = self.class_state
@@ -263,6 +264,22 @@ class World:
             f = self.foreign_method(v.cls, "__contains__")
             if f is not None:
                 return bool(f(v, [key], {}))
+        raise NotHandled()
+
+    def equal(self, a, b):
+        """a == b for instances whose class (or a registered base) defines __eq__; NotImplemented falls back to identity"""
+        if "__eq__" in self.base:
+            try:
+                return self.base["__eq__"](a, b)  # the scenario's own notion of equality for its stand-ins
+            except NotHandled:
+                pass
+        if isinstance(a, Instance) and "__eq__" in self.methods_of(a.cls):
+            r = self.call_method(a, "__eq__", [b], {})
+            if isinstance(r, bool):
+                return r
+            if isinstance(r, Obj) and r.name == "NotImplemented":
+                return a is b
+            raise Undecided("__eq__ did not return a bool")
         raise NotHandled()
 
     @staticmethod
